@@ -961,7 +961,40 @@ class OffsetBitBlock final {
   ::std::size_t SizeInBits() const { return size_; }
   bool Ok() const { return ok_; }
 
+  // CopyFrom, TryToCopyFrom and UncheckedCopyFrom copy the low `size` bits of
+  // another bit block into this one; they are the bit-level counterparts of the
+  // ContiguousBuffer methods of the same names, and are used by the views of
+  // `bits` types.
+  template <class OtherBitBlock>
+  void UncheckedCopyFrom(const OtherBitBlock &other, ::std::size_t size) const {
+    UncheckedWriteUInt(static_cast<ValueType>(
+        (UncheckedReadUInt() &
+         static_cast<ValueType>(~CopyMask(size))) |
+        (static_cast<ValueType>(other.UncheckedReadUInt()) & CopyMask(size))));
+  }
+  template <class OtherBitBlock>
+  void CopyFrom(const OtherBitBlock &other, ::std::size_t size) const {
+    const bool result = TryToCopyFrom(other, size);
+    (void)result;
+    EMBOSS_CHECK(result);
+  }
+  template <class OtherBitBlock>
+  bool TryToCopyFrom(const OtherBitBlock &other, ::std::size_t size) const {
+    if (Ok() && other.Ok() && SizeInBits() >= size &&
+        other.SizeInBits() >= size) {
+      WriteUInt(static_cast<ValueType>(
+          (ReadUInt() & static_cast<ValueType>(~CopyMask(size))) |
+          (static_cast<ValueType>(other.ReadUInt()) & CopyMask(size))));
+      return true;
+    }
+    return false;
+  }
+
  private:
+  static ValueType CopyMask(::std::size_t size) {
+    return MaskToNBits(static_cast<ValueType>(~ValueType{0}),
+                       static_cast<unsigned>(size));
+  }
   ValueType MaskInValue(ValueType original_value, ValueType new_value) const {
     ValueType original_mask = static_cast<ValueType>(~(
         MaskToNBits(static_cast<ValueType>(~ValueType{0}), size_) << offset_));
@@ -1044,7 +1077,40 @@ class BitBlock final {
     return buffer_.Ok() && buffer_.SizeInBytes() * 8 == kBufferSizeInBits;
   }
 
+  // CopyFrom, TryToCopyFrom and UncheckedCopyFrom copy the low `size` bits of
+  // another bit block into this one; they are the bit-level counterparts of the
+  // ContiguousBuffer methods of the same names, and are used by the views of
+  // `bits` types.
+  template <class OtherBitBlock>
+  void UncheckedCopyFrom(const OtherBitBlock &other, ::std::size_t size) const {
+    UncheckedWriteUInt(static_cast<ValueType>(
+        (UncheckedReadUInt() &
+         static_cast<ValueType>(~CopyMask(size))) |
+        (static_cast<ValueType>(other.UncheckedReadUInt()) & CopyMask(size))));
+  }
+  template <class OtherBitBlock>
+  void CopyFrom(const OtherBitBlock &other, ::std::size_t size) const {
+    const bool result = TryToCopyFrom(other, size);
+    (void)result;
+    EMBOSS_CHECK(result);
+  }
+  template <class OtherBitBlock>
+  bool TryToCopyFrom(const OtherBitBlock &other, ::std::size_t size) const {
+    if (Ok() && other.Ok() && SizeInBits() >= size &&
+        other.SizeInBits() >= size) {
+      WriteUInt(static_cast<ValueType>(
+          (ReadUInt() & static_cast<ValueType>(~CopyMask(size))) |
+          (static_cast<ValueType>(other.ReadUInt()) & CopyMask(size))));
+      return true;
+    }
+    return false;
+  }
+
  private:
+  static ValueType CopyMask(::std::size_t size) {
+    return MaskToNBits(static_cast<ValueType>(~ValueType{0}),
+                       static_cast<unsigned>(size));
+  }
   BufferType buffer_;
 };
 
